@@ -39,14 +39,17 @@
 (* compilations (the driver classifies them; `Clean` as an INVARIANT stops *)
 (* at the first one and gives a TLC counterexample = the path to it).      *)
 (*                                                                         *)
-(* Pinned-tree fact (DESIGN.md C03): `Vm::handle_exception_at` restores    *)
-(* the environment depth but neither the value stack nor the binding-      *)
-(* reference stack, so an exceptional edge may arrive with MORE entries    *)
-(* than the handler was set up with (the depths with which this path       *)
-(* passed the handler's `start`, carried in the abstract state as `hd`).   *)
-(* The model continues behind the landing pad with the set-up depths,      *)
-(* requires arrival >= those depths, and reports "more" as the classes     *)
-(* handler-leftover / handler-leftover-bind (known findings); fewer is a   *)
+(* `Vm::handle_exception_at` restores the environment depth and (since the *)
+(* repair 6a99faa) truncates the value stack to the register file, so the  *)
+(* code behind a landing pad starts with args = 0 whatever the depth of    *)
+(* the raising instruction was; code behind the pad that pops more, or a   *)
+(* merge with a path that still carries values, is reported by the         *)
+(* ordinary underflow / merge predicates.  The binding-reference stack is  *)
+(* not restored: an exceptional edge may arrive with MORE references than  *)
+(* the handler was set up with (the depth with which this path passed the  *)
+(* handler's `start`, carried in the abstract state as `hd`); the model    *)
+(* continues with the set-up depth, requires arrival >= it, and reports    *)
+(* "more" as the class handler-leftover-bind (known finding); fewer is a   *)
 (* violation.                                                              *)
 (***************************************************************************)
 EXTENDS Integers, Sequences, FiniteSets, TLC, Json, IOUtils, SequencesExt, CodeBlockOps
@@ -321,10 +324,10 @@ InsertAll(wk, items) ==      \* the first of `items` ends up in front of the oth
 (* Exceptional edge from `ins` (reached with jt, e, b, a) into handler h.  *)
 (* `hd[h]` = <<bind, args>> with which this path passed the handler's      *)
 (* `start` (the depths the handler was set up with).  The VM truncates the *)
-(* environment chain to handler.environment_count and restores nothing     *)
-(* else; the model requires arrival >= set-up depths, reports "more" as    *)
-(* the leftover classes and continues behind the landing pad with the      *)
-(* set-up depths.                                                          *)
+(* environment chain to handler.environment_count and the value stack to   *)
+(* the register file; for the binding references the model requires        *)
+(* arrival >= set-up depth, reports "more" as the leftover class and       *)
+(* continues behind the landing pad with the set-up depth.                 *)
 (***************************************************************************)
 EdgeViol(B, h, hd, ins, e, bx, ax) ==
   LET H == B.handlers[h]
@@ -332,13 +335,11 @@ EdgeViol(B, h, hd, ins, e, bx, ax) ==
   IN (IF hd[h] = <<>> THEN {<<"handler-start-unreached", ins.pc, <<h, H.s>>>>} ELSE {})
      \cup (IF e < H.env THEN {<<"exc-env-underflow", ins.pc, <<h, e, H.env>>>>} ELSE {})
      \cup (IF bx < S[1] THEN {<<"exc-bind-underflow", ins.pc, <<h, bx, S[1]>>>>} ELSE {})
-     \cup (IF ax < S[2] THEN {<<"exc-args-underflow", ins.pc, <<h, ax, S[2]>>>>} ELSE {})
      \cup (IF bx > S[1] THEN {<<"handler-leftover-bind", ins.pc, <<h, bx, S[1]>>>>} ELSE {})
-     \cup (IF ax > S[2] THEN {<<"handler-leftover", ins.pc, <<h, ax, S[2]>>>>} ELSE {})
 Landing(B, h, hd, jt, ins, bx, ax) ==      \* abstract state behind the landing pad (0 as index: target is no instruction)
   LET H == B.handlers[h]
       S == IF hd[h] = <<>> THEN <<bx, ax>> ELSE hd[h]
-  IN <<IdxOf(B, H.h), EdgeCtx(tr, rg, jt, ins.pc, H.h), H.env, S[1], S[2], ins.pc, hd>>
+  IN <<IdxOf(B, H.h), EdgeCtx(tr, rg, jt, ins.pc, H.h), H.env, S[1], 0, ins.pc, hd>>
 
 Step ==
   /\ phase = "flow" /\ work # <<>>
